@@ -15,6 +15,8 @@ GenNext ==
           /\ (i.k # "tomb" => ~del)
           \* "create": nodes come into being on either side while the link is down
           /\ (Focus = "create" => i.e \in Fresh /\ ~del /\ link = "down")
+          \* "pt": during the outage nothing but one kind of node point of existing nodes is written
+          /\ (Focus = "pt" => i.k = "pt" /\ i.e \notin Fresh /\ link = "down")
           \* an upstream that is being restarted takes no writes
           /\ (kind = "restart" => s = "D")
           \* a node is only written to / deleted where it is currently visible (C02: "nodes visible
